@@ -185,3 +185,14 @@ package ctlog
 //@ census [C03,C04] discard-sites: callers ctlog.Backend.Discard within ctlog.(*Log).sequencePool in ctlog
 //@ census [C02,C07] cacheput-sites: callers ctlog.(*Log).cachePut within ctlog.(*Log).sequencePool in ctlog
 //@ census [C07,C17] sequencepool-callers: callers ctlog.(*Log).sequencePool within ctlog.(*Log).sequence in ctlog
+
+// ---- local filesystem backend (C13)
+
+//@ func ctlog.compareFile props C03 C13
+//@   requires f != nil && gFilePos[f] == 0 && !gReadError
+//@   invariant "for" progress: 0 <= gFilePos[f] && gFilePos[f] <= len(fileContent(f)) && len(data) <= len(old(data)) && gFilePos[f] == len(old(data)) - len(data) && len(b) >= 0
+//@   invariant "for" prefix-equal: fileContent(f)[0:gFilePos[f]] == old(data)[0:gFilePos[f]] && data == old(data)[gFilePos[f]:len(old(data))]
+//@   invariant "for" buffer-nonempty: len(b) > 0
+//@   decreases "for" len(data)
+//@   ensures [C13] sound: ret == nil ==> fileContent(f) == old(data)
+//@   ensures [C03,C13] complete: (fileContent(f) == old(data) && !gReadError) ==> ret == nil
